@@ -490,6 +490,7 @@ class Interp:
                 self.issues.append('%s: record %s written with length %d, the format says %d' % (at.loc(), name, L, slen))
             if L % 2 or L < 4:
                 self.issues.append('%s: record %s has odd/short length %d' % (at.loc(), name, L))
+                break
             nw = (L - 4) // 2
             if i + 2 + nw <= len(words):
                 i += 2 + nw
